@@ -22,6 +22,17 @@ type Globals struct {
 }
 
 func newGlobals(scopeAdditions map[string]value.Value) Globals {
+	// A direct call of `throw` is compiled to an instruction; used as a value (`let t = throw;`) it is this builtin.
+	if _, found := scopeAdditions["throw"]; !found && scopeAdditions != nil {
+		scopeAdditions["throw"] = *value.NewValueBuiltinFunction(func(_ value.Executor, _ *context.Context, span errors.Span, args ...value.Value) (*value.Value, *value.VmInterrupt) {
+			display, i := args[0].Display()
+			if i != nil {
+				return nil, i
+			}
+			return nil, value.NewVMThrowInterrupt(span, display)
+		})
+	}
+
 	return Globals{
 		Data:  scopeAdditions,
 		Mutex: sync.RWMutex{},
